@@ -251,16 +251,16 @@ def text_findings(s, singlequoted, singleline):
     out = []
     if singlequoted:
         if b"\n" in s:
-            out.append("F51")
+            out.append("F83")
     else:
         if b"\r" in s:
-            out.append("F50")
+            out.append("F82")
         if b" \n" in s:
             out.append("F5")
         if singleline and b"\n " in s:
             out.append("F35")
     if PLANE4.search(s):
-        out.append("F53")
+        out.append("F85")
     return out
 
 
@@ -441,7 +441,7 @@ def laws(cx, texts, text_reqs, stmt_srcs, by_req, cases):
                     cands = [(arg, fl) for kw, arg, fl, kids in flatten(a)
                              if arg is not None and fl and text_findings(arg, bool(fl & LYS_SINGLEQUOTED), False)]
                     if "InChar" in r:
-                        cands = [(arg, fl) for arg, fl in cands if "F50" in text_findings(arg, bool(fl & LYS_SINGLEQUOTED), False)] or cands
+                        cands = [(arg, fl) for arg, fl in cands if "F82" in text_findings(arg, bool(fl & LYS_SINGLEQUOTED), False)] or cands
                     for arg, fl in cands[:1]:
                         case.update({"text_hex": hexs(arg), "singlequoted": bool(fl & LYS_SINGLEQUOTED), "singleline": False})
                 cx.fail(COMP, "yprp_stmt output does not lex back to the statement tree", case)
@@ -459,9 +459,9 @@ def classify(component, what, case):
         return None
     t = unhex(case["text_hex"])
     f = text_findings(t, case.get("singlequoted", False), case.get("singleline", False))
-    if "F53" in f and "InChar" in [str(x) for x in case.get("reply", [])] and "F50" not in f:
-        return "F53"        # the lexer rejects a plane-4 character
-    f = [x for x in f if x != "F53"] or f
-    if "F50" in f and "InChar" in [str(x) for x in case.get("reply", [])]:
-        return "F50"        # the lexer rejects the CR
+    if "F85" in f and "InChar" in [str(x) for x in case.get("reply", [])] and "F82" not in f:
+        return "F85"        # the lexer rejects a plane-4 character
+    f = [x for x in f if x != "F85"] or f
+    if "F82" in f and "InChar" in [str(x) for x in case.get("reply", [])]:
+        return "F82"        # the lexer rejects the CR
     return f[0] if f else None
